@@ -74,6 +74,8 @@ def render_tier_result(enc, r):
 def wf_problems(s):
     out = []
     es = s["es"]
+    if s["lo"] > s["hi"]:
+        out.append(f"span reversed: minTimestamp {s['lo']} > maxTimestamp {s['hi']}")
     if s["k"] == "I":
         for a, b, l in es:
             if not a < b:
@@ -200,6 +202,16 @@ def boundary_pool(spec, rnd, domain, hi=10.0):
             if y >= 0:
                 near.append(y)
     return srt + mids + fresh + near
+
+
+def outside_times(rnd, domain, lo, hi):
+    """times before the start and after the end of a span (regions sticking out of / lying outside it)"""
+    offs = [0.5, 1.0, 2.5, 20.0] if domain != "dec" else [round(rnd.uniform(0.01, 4), rnd.choice([1, 2, 3])), 0.3, 7.7]
+    out = []
+    for o in rnd.sample(offs, 2):
+        out.append(lo - o)
+        out.append(hi + o)
+    return out
 
 
 # ---------------------------------------------------------------------------------------------
